@@ -174,7 +174,7 @@ def run(ctx):
                 v = "geometric strategy raised %s" % rg["exc"]
             else:
                 pg, pa = pairs_of(rg), pairs_of(ra)
-                if len(pg) != len(pa) or any(abs(x[0] - y[0]) > TOL or abs(x[1] - y[1]) > TOL for x, y in zip(pg, pa)):
+                if not ic.same_pairs(pg, pa, TOL):
                     v = "strategies disagree: geometric %s, algebraic %s" % ([tuple(map(float, p)) for p in pg], [tuple(map(float, p)) for p in pa])
                 elif len(pa) != len(c["expected"]) and c.get("family") != "x-graphs":
                     # (decimal x-graphs: an end point of one curve can sit within 1e-17 of the other curve, outside the exact
